@@ -497,5 +497,63 @@ func syncFacts(repo string, w *strings.Builder) error {
 	}
 	fmt.Fprintf(w, "/-- `handleNewBlock`: tracking and processing, in source order, and the condition under which a block is tracked -/\ndef newBlockSteps : List String := %s\ndef trackCond : List String := %s\n", leanStrList(newBlockSteps), leanStrList(trackCond))
 	fmt.Fprintf(w, "/-- `handleReorg`: stop the downloader, rewind the store, acknowledge — in source order -/\ndef handleReorgSteps : List String := %s\n\n", leanStrList(reorgSteps))
+
+	// the read path of the three stores: (1) a loop over `rows.Next()` whose function never asks `rows.Err()` (nor hands the
+	// rows to meddler, which does) takes a read that failed half way for a complete answer; (2) the querier the range reads of
+	// the bridge store run on (the "is the range processed" check and the range SELECT must see one snapshot)
+	var noErrCheck []string
+	for _, file := range []string{"bridgesync/processor.go", "l1infotreesync/processor.go", "l1infotreesync/processor_verifybatches.go",
+		"lastgersync/processor.go", "aggsender/db/aggsender_db_storage.go"} {
+		_, af, err := parseOne(repo, file)
+		if err != nil {
+			return err
+		}
+		for _, d := range af.Decls {
+			fd, ok := d.(*ast.FuncDecl)
+			if !ok || fd.Body == nil {
+				continue
+			}
+			next, errc := false, false
+			ast.Inspect(fd.Body, func(n ast.Node) bool {
+				if c, ok := n.(*ast.CallExpr); ok {
+					if sel, ok := c.Fun.(*ast.SelectorExpr); ok {
+						switch sel.Sel.Name {
+						case "Next":
+							next = true
+						case "Err":
+							errc = true
+						}
+					}
+				}
+				return true
+			})
+			if next && !errc {
+				noErrCheck = append(noErrCheck, file+":"+fd.Name.Name)
+			}
+		}
+	}
+	fmt.Fprintf(w, "/-- functions of the stores that iterate `rows.Next()` themselves and never ask `rows.Err()` -/\ndef rowLoopsWithoutErrCheck : List String := %s\n", leanStrList(noErrCheck))
+	var rangeQ []string
+	{
+		fset, af, err := parseOne(repo, "bridgesync/processor.go")
+		if err != nil {
+			return err
+		}
+		for _, d := range af.Decls {
+			fd, ok := d.(*ast.FuncDecl)
+			if !ok || fd.Body == nil {
+				continue
+			}
+			ast.Inspect(fd.Body, func(n ast.Node) bool {
+				if c, ok := n.(*ast.CallExpr); ok {
+					if sel, ok := c.Fun.(*ast.SelectorExpr); ok && sel.Sel.Name == "queryBlockRange" && len(c.Args) > 0 {
+						rangeQ = append(rangeQ, fd.Name.Name+":"+nodeStr(fset, c.Args[0]))
+					}
+				}
+				return true
+			})
+		}
+	}
+	fmt.Fprintf(w, "/-- bridge store: what each `queryBlockRange` call reads through -/\ndef rangeQueryQuerier : List String := %s\n\n", leanStrList(rangeQ))
 	return nil
 }
